@@ -19,16 +19,16 @@ FILES = {
     "internal/feeder/feeder.go": "C13",
     "internal/feeder/bastion/bastion_feeder.go": "C10 C11 C19",
     "internal/distribute/rest/distribute.go": "C15",
-    "internal/client/sumdb.go": "C18",
-    "internal/feeder/sumdb/sumdb_feeder.go": "C18 C19",
+    "internal/client/sumdb.go": "C18 C14",
+    "internal/feeder/sumdb/sumdb_feeder.go": "C18 C14 C19",
     "internal/http/server.go": "C16",
     "client/http/witness_client.go": "C16",
-    "omniwitness/omniwitness.go": "C14 C17 C13",
+    "omniwitness/omniwitness.go": "C14 C17 C12",
     "omniwitness/configs.go": "C17 C12",
     "internal/config/log.go": "C12 C17",
-    "internal/feeder/rekor/rekor_feeder.go": "C19",
-    "internal/feeder/pixelbt/pixel_feeder.go": "C19",
-    "internal/feeder/serverless/serverless_feeder.go": "C19",
+    "internal/feeder/rekor/rekor_feeder.go": "C14 C19",
+    "internal/feeder/pixelbt/pixel_feeder.go": "C14 C19",
+    "internal/feeder/serverless/serverless_feeder.go": "C14 C19",
 }
 OPS = [
     (r" == ", " != "), (r" != ", " == "), (r" < ", " <= "), (r" <= ", " < "), (r" > ", " >= "), (r" >= ", " > "),
